@@ -168,8 +168,13 @@ def run_check(pid, tier, harnesses, level="model_checking", assumptions=(), expl
         cov["queries"]["forall"] += res.stats["forall_q"]
         cov["solver_s"] += res.stats["solver_s"]
         cov["nonlinear_terms"] += res.stats["nonlinear_terms"]
-        cov["obligations"] += sum(v[0] + v[1] for v in res.obl.values())
-        cov["discharged"] += sum(v[0] for v in res.obl.values())
+        # obligations decided on this run: by a solver query (unsat of the negation) or, where every
+        # operand was concrete on the path, by evaluation ("trivial")
+        cov["obligations"] += sum(v[0] + v[1] + v[2] for v in res.obl.values())
+        cov["discharged"] += sum(v[0] + v[2] for v in res.obl.values())
+        cov["discharged_by_solver_query"] = cov.get("discharged_by_solver_query", 0) + sum(v[0] for v in res.obl.values())
+        cov["discharged_by_evaluation_on_path"] = cov.get("discharged_by_evaluation_on_path", 0) + \
+            sum(v[2] for v in res.obl.values())
         cov["inconclusive"] += len(res.inconclusive)
         if not res.exhaustive:
             cov["exhaustive"] = False
